@@ -4,6 +4,7 @@
 //!   vx-replay search  <Cxx> <seed> <quick|full>   enumerate small domains + seeded random inputs; JSON result on the last line
 //!   vx-replay finding <id>                         re-run the witness of a known finding
 //!   vx-replay replay  <case...>                    re-execute one recorded case
+mod c0203;
 mod c04;
 mod c05;
 mod c0607;
@@ -85,6 +86,7 @@ fn main() {
                     SearchResult { evaluations: a.evaluations + b.evaluations, failures, summary: format!("{}; {}", a.summary, b.summary) }
                 }
                 "C17" => c17::search(seed, full),
+                "C02" | "C03" => c0203::search(seed, full, &rt),
                 "C04" => c04::search(seed, full, &rt),
                 "C05" => c05::search(seed, full, &rt),
                 "C06" => c0607::search(pid, seed, full, &rt),
@@ -120,6 +122,7 @@ fn main() {
             let (fails, detail) = match case[0] {
                 "c08" => c08::replay(&case[1..], &rt),
                 "c17" => c17::replay(&case[1..]),
+                "c0203" => c0203::replay(&case[1..], &rt),
                 "c04" => c04::replay(&case[1..], &rt),
                 "c05" => c05::replay(&case[1..], &rt),
                 "c06" | "c07" => c0607::replay(case[0], &case[1..], &rt),
